@@ -224,8 +224,9 @@ func attachComments(comments []*commentBlock, node *AstNode) []*commentBlock {
 	if len(comments) == 0 {
 		return nil
 	}
-	scopeComments := make([]*commentBlock, 0, len(comments))
-	nodeComments := make([]*commentBlock, 0, len(comments))
+	// Do not size these for all of the remaining comments: most nodes take
+	// few or none of them, and this runs for every node in the file.
+	var scopeComments, nodeComments []*commentBlock
 	loc := node.Loc
 	for len(comments) > 0 && comments[0].Loc.Line <= loc.Line {
 		if len(nodeComments) > 0 &&
